@@ -214,6 +214,27 @@ def check_tensor(case):
             check_eval(both, exp, dims, b["dom"], b["cod"], "sum-with-dagger",
                        common.show(f))
             break
+    # evaluation reads the data a box holds now: entries updated in place
+    # between two evaluations (weights in a training loop) are seen by the
+    # second one
+    for b, _ in spec["layers"]:
+        if b["k"] == "box" and not b.get("dag") and not b.get("objarr"):
+            f = specs.box("tensor", b)
+            one = {"cls": "tensor", "dom": b["dom"], "layers": [[b, 0]]}
+            before = classes.tensor_ref_eval(one)
+            wrapped = tensor.Id(f.dom) >> f
+            check_eval(f.eval(), before, dims, b["dom"], b["cod"],
+                       "box-eval", common.show(f))
+            check_eval(wrapped.eval(), before, dims, b["dom"], b["cod"],
+                       "box-eval", common.show(f))
+            if isinstance(f.data, np.ndarray) and f.data.size:
+                data = f.data   # (the attribute itself is read-only)
+                data *= 3
+                for value in (f.eval(), wrapped.eval(), ident(wrapped)):
+                    check_eval(value, 3 * before, dims, b["dom"], b["cod"],
+                               "eval-after-updating-the-data-in-place",
+                               common.show(f))
+            break
     kinds = {b["k"] for b, _ in spec["layers"]}
     return dict(nt=len(spec["layers"]) >= 3 and bool(
         kinds & {"swap", "spider", "bubble"}), labels=sorted(kinds),
